@@ -404,6 +404,9 @@ func (w *World) CloseTrace() {
 
 // Emit writes one trace line.
 func (w *World) Emit(node int, action string, x, o map[string]interface{}) {
+	if w.out == nil {
+		return // muted (a run whose steps are not part of the trace)
+	}
 	w.seq++
 	w.lines++
 	if x == nil {
